@@ -17,6 +17,7 @@ pub mod std_io_shim {
 
 pub type IoResult<T> = Result<T, IoError>;
 pub type SeqNo = u64;
+pub type MemtableId = u64;
 pub type InternalKeyspaceId = u64;
 
 pub mod lsm_tree {
